@@ -1,18 +1,105 @@
-(* C01/Spec.v — the property as a truth table over the observable "identity produced". *)
+(* C01/Spec.v — the property as a truth table over the observable "identity produced".
+   Written from the property text: the four signature states of the text (absent, valid,
+   corrupted, valid under an untrusted key) are DERIVED here from what is on the wire (who signed,
+   was the signed content or the signature altered, which Issuer the signed element names, what its
+   KeyInfo ships) and from whom the SP trusts — not from the code's way of picking certificates.
+   The single-message view of round 1 (spec / satisfied over Model.input) is kept below. *)
 From Coq Require Import Bool List.
 From Verif Require Import C01.Model.
+Import ListNotations.
 
-(* the option values in force: documented defaults want_response_signed = True, others False *)
+(* the option values in force: documented defaults want_response_signed = True, the two other
+   want_* False, only_use_keys_in_metadata = True *)
 Definition in_force (v : optv) (documented_default : bool) : bool :=
   match v with Unset => documented_default | B b => b | StrTrue => true end.
+
+Definition wr_c (c : config) := in_force (c_wr c) true.
+Definition wa_c (c : config) := in_force (c_wa c) false.
+Definition wor_c (c : config) := in_force (c_wor c) false.
+Definition only_md (c : config) := in_force (c_only c) true.
+
+(* the signing keys the federation metadata held by the SP publishes for an entity *)
+Definition md_trusts (w : who) (k : key) : bool :=
+  match w, k with
+  | WIdp, KIdp | WIdp, KIdp2 => true        (* idpenc is published for encryption only *)
+  | WOther, KOther => true
+  | _, _ => false
+  end.
+Definition md_knows (w : who) : bool := match w with WIdp | WOther => true | WUnknown | WNone => false end.
+
+(* the key that made the signature travels in the signature's own KeyInfo *)
+Definition ships_signer (g : sgn) : bool :=
+  match ki g with
+  | KiSigner => true
+  | KiIdp => match signer g with KIdp => true | _ => false end
+  | KiNone => false
+  end.
+
+(* a key is trusted for the issuer the signed element names when the metadata publishes it as a
+   signing key of that issuer; documented opt-out (only_use_keys_in_metadata = False, "the
+   certificate contained in a SAML message will be used for signature verification"): for an issuer
+   without any metadata key, the key shipped in the message *)
+Definition trusted (c : config) (w : who) (g : sgn) : bool :=
+  md_trusts w (signer g) || (negb (only_md c) && negb (md_knows w) && ships_signer g).
+
+Definition state (c : config) (w : who) (s : option sgn) : sigst :=
+  match s with
+  | None => Absent
+  | Some g => if corrupt g then Corrupt else if trusted c w g then Valid else Untrusted
+  end.
+
+Definition r_state (c : config) (m : msg) : sigst := state c (r_who m) (m_rs m).
+Definition a_state (c : config) (m : msg) : sigst := state c (a_who m) (m_as m).
+
+Definition ok (s : sigst) : Prop := s = Absent \/ s = Valid.
+
+(* every signature present verifies and the demanded signatures are carried *)
+Definition satisfied_m (c : config) (m : msg) : Prop :=
+  ok (r_state c m) /\ ok (a_state c m)
+  /\ (wr_c c = true -> r_state c m = Valid) /\ (wa_c c = true -> a_state c m = Valid)
+  /\ (wor_c c = true -> r_state c m = Valid \/ a_state c m = Valid).
+
+(* "otherwise valid": a binding the SP unravels, an assertion that names its issuer, and a Response
+   that — if it names an issuer — names the one of the assertion *)
+Definition otherwise_valid (m : msg) : Prop :=
+  m_bind m <> PAOS /\ a_who m <> WNone /\ (r_who m = WNone \/ r_who m = a_who m).
+
+Definition spec_m (c : config) (m : msg) (identity : bool) : Prop :=
+  (identity = true -> satisfied_m c m) /\ (satisfied_m c m -> otherwise_valid m -> identity = true).
+
+(* a long-lived SP: whatever it consumed before, every message of the sequence obeys the table *)
+Definition spec_seq (c : config) (ms : list msg) (ids : list bool) : Prop := Forall2 (spec_m c) ms ids.
+
+Definition ok_b (s : sigst) : bool := match s with Absent | Valid => true | _ => false end.
+Definition valid_b (s : sigst) : bool := match s with Valid => true | _ => false end.
+
+Definition sat_b (wr wa wor : bool) (sr sa : sigst) : bool :=
+  ok_b sr && ok_b sa && implb wr (valid_b sr) && implb wa (valid_b sa) && implb wor (valid_b sr || valid_b sa).
+
+Definition satisfied_m_b (c : config) (m : msg) : bool :=
+  sat_b (wr_c c) (wa_c c) (wor_c c) (r_state c m) (a_state c m).
+
+Definition is_paos (b : bind) : bool := match b with PAOS => true | _ => false end.
+
+Definition otherwise_valid_b (m : msg) : bool :=
+  negb (is_paos (m_bind m)) && has_issuer (a_who m) && (negb (has_issuer (r_who m)) || who_eqb (r_who m) (a_who m)).
+
+Definition spec_m_b (c : config) (m : msg) (identity : bool) : bool :=
+  implb identity (satisfied_m_b c m) && implb (satisfied_m_b c m && otherwise_valid_b m) identity.
+
+Fixpoint spec_seq_b (c : config) (ms : list msg) (ids : list bool) : bool :=
+  match ms, ids with
+  | [], [] => true
+  | m :: ms', i :: ids' => spec_m_b c m i && spec_seq_b c ms' ids'
+  | _, _ => false
+  end.
+
+(* ---- the single-message view of round 1: states given, Response and assertion of the IdP ---------- *)
 
 Definition wr (x : input) := in_force (o_wr x) true.
 Definition wa (x : input) := in_force (o_wa x) false.
 Definition wor (x : input) := in_force (o_wor x) false.
 
-Definition ok (s : sigst) : Prop := s = Absent \/ s = Valid.
-
-(* every signature present verifies and the demanded signatures are carried *)
 Definition satisfied (x : input) : Prop :=
   ok (rs x) /\ ok (as_ x)
   /\ (wr x = true -> rs x = Valid) /\ (wa x = true -> as_ x = Valid)
@@ -21,15 +108,7 @@ Definition satisfied (x : input) : Prop :=
 Definition spec (x : input) (identity : bool) : Prop :=
   (identity = true -> satisfied x) /\ (satisfied x -> binding x <> PAOS -> identity = true).
 
-Definition ok_b (s : sigst) : bool := match s with Absent | Valid => true | _ => false end.
-Definition valid_b (s : sigst) : bool := match s with Valid => true | _ => false end.
-
-Definition satisfied_b (x : input) : bool :=
-  ok_b (rs x) && ok_b (as_ x)
-  && implb (wr x) (valid_b (rs x)) && implb (wa x) (valid_b (as_ x))
-  && implb (wor x) (valid_b (rs x) || valid_b (as_ x)).
-
-Definition is_paos (b : bind) : bool := match b with PAOS => true | _ => false end.
+Definition satisfied_b (x : input) : bool := sat_b (wr x) (wa x) (wor x) (rs x) (as_ x).
 
 Definition spec_b (x : input) (identity : bool) : bool :=
   implb identity (satisfied_b x) && implb (satisfied_b x && negb (is_paos (binding x))) identity.
